@@ -107,8 +107,16 @@ impl Prop for P {
         let max = tier.pick(50, 200);
         let mut p = gens::DagParams::all(max);
         p.min_vars = 0;
+        // a few programs with 33-200 variables (input offsets beyond a signed
+        // byte) and a few with 130-300 values live at once (stack offsets)
+        let mut pw = gens::DagParams::all(max);
+        pw.consts = gens::fl_moderate();
         (
-            gens::dag(p),
+            prop_oneof![
+                tier.pick(300, 100) => gens::dag(p),
+                2 => gens::dag_wide(pw.clone(), 1..=1, 33..=200, true),
+                1 => gens::dag_wide(pw, 1..=6, 130..=300, false),
+            ],
             prop_oneof![
                 3 => Just(None),
                 1 => vec(any::<u16>(), 1..=8).prop_map(Some),
@@ -128,6 +136,17 @@ impl Prop for P {
     }
 
     fn check(case: &Case, cx: &mut Cx) -> CheckResult {
+        // many-variable programs: the 8 generated coordinates are extended
+        let widened;
+        let case = if case.dag.nvars as usize > 8 {
+            let mut c = case.clone();
+            c.points = gens::widen_points(&case.points, case.dag.nvars as usize);
+            widened = c;
+            cx.ev.count("programs_with_more_than_32_variables");
+            &widened
+        } else {
+            case
+        };
         let b = build_dag(&case.dag);
         let roots = crate::p01::roots_of(&b, &case.outs);
         let all_nodes = case.outs.is_none();
